@@ -61,7 +61,7 @@ class Ctx:
         if self.tier == "thorough":
             return thorough
         if self.widened or self.anchor_changed:
-            return max(quick, min(thorough, quick * 4))
+            return max(quick, min(thorough, quick * getattr(self, 'widen_factor', 4)))
         return quick
 
     # ---- bookkeeping
@@ -339,6 +339,7 @@ def main():
     signal.alarm(limit)
     try:
         mod = importlib.import_module("harness.props.%s" % prop.lower())
+        ctx.widen_factor = getattr(mod, "WIDEN_FACTOR", 4)  # slow checks may lower the widening factor
         if a.replay:
             data = json.load(open(a.replay if os.path.isabs(a.replay) else os.path.join(HERE, a.replay)))
             ok = lean.build(list(dict.fromkeys([mod.LEAN_PROP] + list(getattr(mod, "LEAN_TARGETS", [])))))[0]
